@@ -85,7 +85,7 @@ def build(case, kind, j, form):
 def run():
     ck = Check("C11")
     thorough = ck.tier == "thorough"
-    maxn = 6 if thorough else 4
+    maxn = 8 if thorough else 4
     res = run_tlc("MC_C11", defines={"MaxN": str(maxn), "Pad": "2"}, timeout_s=1500)
     if res.violation:
         raise pvlib.Broken("PanIndex design invariant violated in the model: " + res.violation)
